@@ -1,14 +1,1 @@
-use crate::fin::*;
-use muxide::verif_hooks::mp4::verif as mp4h;
-#[kani::proof]
-#[kani::unwind(5)]
-#[kani::stub(muxide::invariant_ppt::__assert_invariant_impl, crate::stubs::assert_invariant_stub)]
-#[kani::stub(muxide::muxer::mp4::build_moov_box, muxide::verif_hooks::mp4::verif::moov_recording_stub)]
-pub fn x_fin_v2_u5() {
-    let vpts: [u64; 2] = kani::any();
-    reset_moov_stub(4);
-    let mut w = build_writer::<2, 0>(RecSink::new(), vpts, [true, false], [], false);
-    let r = w.finalize(&VIDEO, None, false);
-    assert!(r.is_ok());
-    core::mem::forget((w, r));
-}
+// scratch
